@@ -183,6 +183,9 @@ def replay(rec, case):
     from ..lib import BIC, IBAN
     i = case["input"]
     origin = i.get("origin", "replay")
+    if origin == "registry-formats":
+        registry_formats(rec, case.get("seed", 1))
+        return
     form = origin.split(":", 1)[1] if origin.startswith("argform:") else None
     if "bic" in i:
         t = dict(dims.arg_forms(i["bic"], BIC)).get(form, i["bic"]) if form else i["bic"]
@@ -267,7 +270,7 @@ def shard_country(arg):
     b = g.natvalid_bban(cc, rng) or g.bban(cc, rng)
     base = g.iban_of(cc, b)
     for flag in (False, True):
-        for label, t in dims.whitespace_extremes(base):
+        for label, t in dims.whitespace_extremes(base, huge=(cc in ("DE", "FR", "LC"))):
             check_iban(rec, t, flag, f"ws-extreme:{label}")
             rec.case("ws-extreme", None)
             bad = t.replace(base[6], "?", 1) + "9"
@@ -329,6 +332,46 @@ def shard_bic(arg):
     return rec
 
 
+def registry_formats(rec: Rec, seed):
+    """Bank rows in the minimal format the registry README documents (no checksum_algo), with an unknown method, and a
+    non-German row carrying a method: validating IBANs of those banks - with and without national validation - stays total
+    and follows the reference (no method / unknown method => accepted)."""
+    import random
+    from ..engines.pkgcopy import PackageCopy
+    from ..oracles.core import canonical_digits, repo_root
+    rng = random.Random(f"{seed}:C05:registry")
+    rows = [
+        {"bank_code": "12345678", "name": "Readme Bank", "short_name": "RB", "bic": "RDMEDEFFXXX", "primary": True, "country_code": "DE"},
+        {"bank_code": "87654321", "name": "Odd Method", "short_name": "OM", "bic": "", "primary": True, "country_code": "DE", "checksum_algo": "ZZ"},
+        {"bank_code": "11112222", "name": "Null Method", "short_name": "NM", "bic": None, "primary": False, "country_code": "DE", "checksum_algo": None},
+        {"bank_code": "19043", "name": "AT with method", "short_name": "AT", "bic": "ABCDATWW", "primary": True, "country_code": "AT", "checksum_algo": "00"},
+        {"bank_code": "ABCD", "name": "GB", "short_name": "GB", "bic": "ABCDGB22", "primary": True, "country_code": "GB"},
+    ]
+    g = gen()
+    texts = []
+    for r in rows:
+        cc = r["country_code"]
+        for _ in range(4):
+            b = g.bban(cc, rng)
+            a, e = oracle().positions(cc)["bank_code"]
+            b = b[:a] + r["bank_code"] + b[a + len(r["bank_code"]):]
+            texts.append(cc + canonical_digits(cc, b) + b)
+    with PackageCopy(repo_root(), bank_files={"readme_format.json": rows}) as pc:
+        ops = [{"op": "iban_verdict", "text": t, "validate_bban": f} for t in texts for f in (False, True)]
+        res = pc.query(ops)
+        if isinstance(res, dict):
+            rec.fail("copy_import_fails|registry-formats", "iban_total", {"text": "", "validate_bban": True, "origin": "registry-formats",
+                                                                        "rows": rows}, "package imports", res["import_error"][-300:])
+            return
+        for op, r in zip(ops, res):
+            inp = {"text": op["text"], "validate_bban": op["validate_bban"], "origin": "registry-formats", "rows": rows}
+            if "crash" in r:
+                rec.fail(f"escape|registry-formats|{r['crash']}", "iban_total", inp, "only SchwiftyException subclasses escape", r)
+            elif "ok" not in r:
+                rec.fail(f"false_reject|registry-formats|{r.get('err')}", "iban_verdict", inp, "accepted (no implemented method for this bank)", r)
+            rec.case("registry-formats", (op["text"], op["validate_bban"]), {"iban": op["text"], "validate_bban": op["validate_bban"]})
+
+
 def text_strategy():
     from hypothesis import strategies as st
     from .c01 import text_strategy as iban_texts
@@ -371,11 +414,12 @@ def run(ctx):
     ctx.pmap(shard_country, [(cc, ctx.seed, ctx.tier, alphabet) for cc in o.countries()])
     from .c04 import bases
     ctx.pmap(shard_bic, [(b, alphabet) for b in bases(ctx.rng("bic"), ctx.pick(2, 20))])
+    registry_formats(ctx.rec, ctx.seed)
     ctx.hyp_explore(text_strategy(), hyp_body, ctx.pick(6000, 200000), name="C05-text")
     if not ctx.quick:
         from ..engines import fuzz
         fuzz.run_campaign(ctx.rec, "iban-c05", 100000, ctx.seed, ctx.prop)   # secondary engine: coverage-guided, oracle inside
         fuzz.run_campaign(ctx.rec, "bic-c05", 100000, ctx.seed, ctx.prop)
-    ctx.require_classes("ws-extreme", "ws-extreme-defects", "token", "argform-userstr", "argform-own-object", "bic-argform-own-object",
+    ctx.require_classes("registry-formats", "ws-extreme", "ws-extreme-defects", "token", "argform-userstr", "argform-own-object", "bic-argform-own-object",
                         "valid", "replace-defects-1", "replace-defects-2", "inject-1-defects", "inject-4-defects",
                         "nationally-invalid", "bic-base", "bic-multi-defects-3", "hyp-iban-near", "hyp-bic-near")
